@@ -8,19 +8,19 @@ BASELINE = json.load(open('/root/.vp/BASELINE.json'))['cmd']
 # property -> (technique, level text, level note)
 CLAIMS = json.load(open('/verif/claims.json'))
 
-served = {}
-for line in subprocess.run(['/verif/bin/yv', 'list'], capture_output=True, text=True, check=True).stdout.splitlines():
-    pid, *rules = line.split()
-    served[pid] = rules
+served = json.loads(subprocess.run(['/verif/bin/yv', 'list', '-json'], capture_output=True, text=True, check=True).stdout)
 
 checks, na = [], []
+NOTE = ('Trusted base: go/packages + go/types + go/ssa of golang.org/x/tools v0.50.0 and the rule implementations in /verif/checker/internal/rules. '
+        'Assumes the production code of ./... under default build tags is the program; rules are path-insensitive (a guard must cut every CFG path); '
+        'call resolution is static + interface calls to module implementers (quick) or VTA (thorough). Nothing is executed; value-level behaviour is not decided.')
 for pid in sorted(CLAIMS):
     c = CLAIMS[pid]
-    if c.get('not_applicable'):
+    if pid not in served:
         na.append({'property_id': pid, 'reason': c['not_applicable']})
         continue
-    if pid not in served:
-        sys.exit(f'{pid} is claimed but the checker does not serve it')
+    c.setdefault('text', 'Level "other": every instance of the named structural necessary conditions holds on the current tree. ' + served[pid]['explanation'])
+    c.setdefault('note', NOTE)
     checks.append({
         'property_id': pid,
         'quick_cmd': f'/verif/bin/yv check -p {pid} -tier quick',
